@@ -519,3 +519,76 @@ def check_graph_build(seed, n_cases=300):
         if v:
             viol.append(dict(kind="history", check="graph_build", seed=seed, index=idx, world=w.describe(), violations=v))
     return viol, cases
+
+
+# =====================================================================================================================
+def check_operator_table(seed, n_cases=0):
+    """C01 ("operators on results are ordinary nodes"): exhaustive over Python's operator table.  The value of a node
+    is a Probe that records (operator, left operand, right operand) of the call it finally receives; for every
+    binary operator in forward, reflected (constant on the left) and node-node form, every comparison and every
+    unary operator, the DAG's result is compared with the plain Python evaluation of the same expression."""
+    import operator as op
+
+    from tawazi import dag, xn
+
+    class Probe:
+        def __init__(self, name):
+            self.name = name
+
+        def __repr__(self):
+            return f"P({self.name})"
+
+        def __hash__(self):
+            return hash(self.name)
+
+    def norm(v):
+        return v.name if isinstance(v, Probe) else v
+
+    binary = ["add", "sub", "mul", "matmul", "truediv", "floordiv", "mod", "divmod", "pow", "lshift", "rshift", "and", "xor", "or"]
+    for nm in binary:
+        setattr(Probe, f"__{nm}__", (lambda nm: lambda self, o: (nm, self.name, norm(o)))(nm))
+        setattr(Probe, f"__r{nm}__", (lambda nm: lambda self, o: (nm, norm(o), self.name))(nm))
+    for nm in ["lt", "le", "gt", "ge", "eq", "ne"]:
+        setattr(Probe, f"__{nm}__", (lambda nm: lambda self, o: (nm, self.name, norm(o)))(nm))
+    for nm in ["neg", "pos", "abs", "invert"]:
+        setattr(Probe, f"__{nm}__", (lambda nm: lambda self: (nm, self.name))(nm))
+
+    @xn
+    def mk(name):
+        return Probe(name)
+
+    fns = {"add": op.add, "sub": op.sub, "mul": op.mul, "matmul": op.matmul, "truediv": op.truediv, "floordiv": op.floordiv, "mod": op.mod, "divmod": divmod,
+           "pow": op.pow, "lshift": op.lshift, "rshift": op.rshift, "and": op.and_, "xor": op.xor, "or": op.or_,
+           "lt": op.lt, "le": op.le, "gt": op.gt, "ge": op.ge, "eq": op.eq, "ne": op.ne}
+    una = {"neg": op.neg, "pos": op.pos, "abs": abs, "invert": op.invert}
+    viol, cases = [], 0
+
+    def run_case(label, build, plain):
+        nonlocal cases
+        cases += 1
+        try:
+            with warnings.catch_warnings():
+                warnings.simplefilter("ignore")
+                d = dag(build)
+                got = d()
+        except Exception as e:  # noqa: BLE001
+            got = f"raised {type(e).__name__}: {e}"
+        exp = plain()
+        if got != exp:
+            viol.append(dict(kind="history", check="operator_table", index=cases, violations=[f"[C01] {label}: the DAG returns {got!r}, plain Python evaluates to {exp!r}"]))
+
+    for nm, f in fns.items():
+        run_case(f"result {nm} constant", (lambda f=f: (lambda: f(mk("L"), 7)))(), lambda f=f: f(Probe("L"), 7))
+        run_case(f"constant {nm} result (reflected operator)", (lambda f=f: (lambda: f(7, mk("R"))))(), lambda f=f: f(7, Probe("R")))
+        run_case(f"result {nm} result", (lambda f=f: (lambda: f(mk("L"), mk("R"))))(), lambda f=f: f(Probe("L"), Probe("R")))
+    for nm, f in una.items():
+        run_case(f"{nm} result", (lambda f=f: (lambda: f(mk("X"))))(), lambda f=f: f(Probe("X")))
+    # order-sensitive builtin operands (what a user writes): str / list / tuple / dict on the left
+    @xn
+    def val(v):
+        return v
+
+    for label, left, right, f in [("str + result", "hello, ", "bob", op.add), ("list + result", [1], [2, 3], op.add), ("tuple + result", (1,), (3, 3), op.add),
+                                   ("dict | result", {"a": 1, "b": 1}, {"a": 2}, op.or_), ("int - result", 10, 3, op.sub), ("int ** result", 2, 5, op.pow)]:
+        run_case(label, (lambda left=left, right=right, f=f: (lambda: f(left, val(right))))(), lambda left=left, right=right, f=f: f(left, right))
+    return viol, cases
